@@ -26,6 +26,28 @@ CHECKS = {
     ),
 }
 
+CHECKS["C18"] = dict(
+    category="exploration",
+    text="Topics.tla states the key -> subnet -> topic mapping as pure operators at the three call sites (publisher through the "
+         "message id's key slot, subscriber on the raw key, validator after GetTopicBaseName), the fixed-offset envelope and the "
+         "128-bit subnet vector <-> hex string codec, code quirks included. TLC checks Agree, InRange, RoundTrip and VecRoundTrip "
+         "exhaustively on a boundary domain (first five key bytes in {00,7f,80,ff}, lengths 0..5/47/48, small parametric envelope, "
+         "264 vectors) and evaluates the same operators as an oracle (ndJsonDeserialize/ndJsonSerialize) on seeded inputs from the Go "
+         "driver (2 000 / 50 000 random keys plus boundary, short and attack keys, envelopes, vectors, odd strings). The driver runs "
+         "every key through the real p2pNetwork.Subscribe and Broadcast (verif hook, fake topics controller) and feeds the published "
+         "bytes to the real message validator on all 128 advertised topics and the 'unknown' sentinel; monitors compare the three real "
+         "call sites with each other, check the advertised range and the real codecs' round trips; spec-vs-code mismatches are divergences.",
+    design_ref="DESIGN.md section 5 C18 and section 7",
+    note="The 2^384 key space is sampled, only the boundary domain is enumerated (spec side). The topics controller is a fake that "
+         "records names (assumed to prepend the prefix as the real one does); operator signatures are arbitrary 256-byte strings. "
+         "Malformed keys below 5 bytes map to the sentinel 'unknown' by design and are asserted only at the call sites that take a raw "
+         "key; the disagreement through a zero-padded message id is recorded as an observation.",
+    technique="stateless TLA+ spec as executable oracle + TLC exhaustive boundary evaluation + counterexample keys of weakened specs; "
+              "real call sites compared with each other by a Go driver",
+)
+
+HOOK_COMMITS.append("4f281a047")
+
 NOT_YET = {}
 
 
